@@ -28,7 +28,8 @@ class Job:
                  enforce=None, enforce_rec=False, replace=(), loop_contracts=False, spec=(), flags=(),
                  unwindset=None, unwind=None, timeout=900, mem_gb=24, canary=True, tier='quick',
                  post=None, hooks=None, replay=None, route='loop-free', note='', expect=(), defines=(),
-                 backend='minisat', no_restore=False, bounded=None, known=None, pre_text='', post_spec=(), force_globals=()):
+                 backend='minisat', no_restore=False, bounded=None, known=None, pre_text='', post_spec=(), force_globals=(), stubs=()):
+        self.stubs = tuple(stubs)   # subset of `replace`: contract applied in stub form by the extractor instead of by goto-instrument
         self.name = name
         self.tus = tus
         self.roots = list(roots)
@@ -165,7 +166,7 @@ def read_spec(names):
 
 
 def build_c(job, work, canary=False):
-    text, info = cxx2c.translate(job.tus, job.roots, job.contracts, job.loopc, job.nobody, job.hooks, job.force_globals)
+    text, info = cxx2c.translate(job.tus, job.roots, job.contracts, job.loopc, job.nobody, job.hooks, job.force_globals, job.stubs)
     if job.post:
         text = job.post(text)
     # spec functions are pure C over plain integer types and precede the extracted text (contracts call them)
@@ -237,7 +238,8 @@ def pipeline(job, work, canary=False, only_property=None, noslice=False):
         for f in job.enforce:
             cmd += ['--enforce-contract-rec' if job.enforce_rec else '--enforce-contract', f]
         for f in job.replace:
-            cmd += ['--replace-call-with-contract', f]
+            if f not in job.stubs:
+                cmd += ['--replace-call-with-contract', f]
         if job.loop_contracts:
             cmd += ['--apply-loop-contracts']
         cmd += [gb, gb2]
@@ -673,5 +675,7 @@ def write_evidence(pid, module, tier, seed, results, wall, nviol, known_hits):
         'assumptions': assumptions,
         'wall_s': round(wall, 1), 'violations': nviol,
     }
-    os.makedirs(os.path.join(VERIF, 'evidence'), exist_ok=True)
-    json.dump(ev, open(os.path.join(VERIF, 'evidence', pid + '.json'), 'w'), indent=1)
+    # development runs (--only filter, or a scratch copy of the repository via VERIF_REPO) never touch the committed evidence
+    evdir = os.environ.get('VERIF_EVIDENCE_DIR') or os.path.join(VERIF, 'evidence')
+    os.makedirs(evdir, exist_ok=True)
+    json.dump(ev, open(os.path.join(evdir, pid + '.json'), 'w'), indent=1)
